@@ -130,6 +130,13 @@ def bias(scs, rnd, p=0.55):
     return scs
 
 
+def gen_random(ctx, bd, abi, nsc, nmounts, shape, tag):
+    """histories of the seeded generator of the vfs engine (the same code, carried by the vfsasync binary)"""
+    out = ctx.path("gen_%s.ndjson" % tag)
+    C.run_bin(bd, "vfsasync", [abi, out, "gen", nsc, nmounts, shape], env={"VERIF_SEED": ctx.seed + sum(map(ord, tag))}, timeout=600)
+    return C.read_ndjson(out)
+
+
 def execute(ctx, bd, abi, scenarios, tag):
     import time
     t0 = time.time()
@@ -354,16 +361,16 @@ def run_x06(ctx):
         return replay(ctx)
     quick = ctx.quick
     bd = bindir(ctx)
-    bds = C.build_harness(bins=["vfs"])          # the seeded history generator of the vfs engine
     abi = V.export_abi(ctx)
     if os.path.exists(os.path.join(C.SPEC, "MC_VfsAsync.tla")):
         model(ctx)
     rnd_py = random.Random(ctx.seed)
-    walks = V.tlc_walks(ctx, "walk_x06", 40 if quick else 400, 6 if quick else 8, list(V.CODE_BUGS), False)
+    walks = V.tlc_walks(ctx, "walk_x06", 16 if quick else 400, 6 if quick else 8, list(V.CODE_BUGS), False)
     scs = [V.concretise(w, "tlc-x06-%d" % i, "tlc-simulate", ctx.seed * 1000 + i, autoprobe=2, nopred=True) for i, w in enumerate(walks)]
-    rnd = V.gen_random(ctx, bds, abi, 2 if quick else 10, 120 if quick else 500, "mix", "x06")
-    rnd += V.gen_random(ctx, bds, abi, 1 if quick else 3, 300 if quick else 600, "fill", "x06f")
-    rnd += V.gen_random(ctx, bds, abi, 1 if quick else 8, 25 if quick else 80, "rmroot", "x06r")
+    rnd = gen_random(ctx, bd, abi, 1 if quick else 10, 100 if quick else 500, "mix", "x06")
+    if not quick:
+        rnd += gen_random(ctx, bd, abi, 3, 600, "fill", "x06f")
+    rnd += gen_random(ctx, bd, abi, 1 if quick else 8, 25 if quick else 80, "rmroot", "x06r")
     bias(rnd, rnd_py)
     dirs = directed(ctx.seed) + bias(V.directed_c07(ctx.seed) + V.directed_c14(ctx.seed), rnd_py, 0.0)
     allsc = dirs + scs + rnd
